@@ -83,6 +83,7 @@ static int run_pblock_chain (hawk_rtx_t* rtx, hawk_chain_t* cha);
 static int run_pblock (hawk_rtx_t* rtx, hawk_chain_t* cha, hawk_oow_t bno);
 static int run_block (hawk_rtx_t* rtx, hawk_nde_blk_t* nde);
 static int run_statement (hawk_rtx_t* rtx, hawk_nde_t* nde);
+static int run_statement_withdc (hawk_rtx_t* rtx, hawk_nde_t* nde);
 static int run_if (hawk_rtx_t* rtx, hawk_nde_if_t* nde);
 static int run_while (hawk_rtx_t* rtx, hawk_nde_while_t* nde);
 static int run_for (hawk_rtx_t* rtx, hawk_nde_for_t* nde);
@@ -2386,6 +2387,29 @@ static int run_statement (hawk_rtx_t* rtx, hawk_nde_t* nde)
 	return xret;
 }
 
+static int run_statement_withdc (hawk_rtx_t* rtx, hawk_nde_t* nde)
+{
+	/* run the statement that if, else, while, for or do controls.
+	 * run_block() counts a block. a statement nested without braces
+	 * is counted as a block level here. see parse_statement_withdc() */
+	int n;
+	int counted;
+
+	counted = (nde->type != HAWK_NDE_BLK);
+	if (counted && rtx->hawk->opt.depth.s.block_run > 0 &&
+	    rtx->depth.block >= rtx->hawk->opt.depth.s.block_run)
+	{
+		hawk_rtx_seterrnum (rtx, &nde->loc, HAWK_EBLKNST);
+		return -1;
+	}
+
+	if (counted) rtx->depth.block++;
+	n = run_statement(rtx, nde);
+	if (counted) rtx->depth.block--;
+
+	return n;
+}
+
 static int run_if (hawk_rtx_t* rtx, hawk_nde_if_t* nde)
 {
 	hawk_val_t* test;
@@ -2403,7 +2427,7 @@ next_arm:
 	hawk_rtx_refupval (rtx, test);
 	if (hawk_rtx_valtobool(rtx, test))
 	{
-		n = run_statement(rtx, nde->then_part);
+		n = run_statement_withdc(rtx, nde->then_part);
 	}
 	else if (nde->else_part)
 	{
@@ -2419,7 +2443,7 @@ next_arm:
 			goto next_arm;
 		}
 
-		n = run_statement(rtx, nde->else_part);
+		n = run_statement_withdc(rtx, nde->else_part);
 	}
 
 	hawk_rtx_refdownval (rtx, test); /* TODO: is this correct?*/
@@ -2447,7 +2471,7 @@ static int run_while (hawk_rtx_t* rtx, hawk_nde_while_t* nde)
 
 			if (hawk_rtx_valtobool(rtx, test))
 			{
-				if (run_statement(rtx,nde->body) <= -1)
+				if (run_statement_withdc(rtx, nde->body) <= -1)
 				{
 					hawk_rtx_refdownval (rtx, test);
 					return -1;
@@ -2482,7 +2506,7 @@ static int run_while (hawk_rtx_t* rtx, hawk_nde_while_t* nde)
 
 		do
 		{
-			if (run_statement(rtx,nde->body) <= -1) return -1;
+			if (run_statement_withdc(rtx, nde->body) <= -1) return -1;
 
 			if (rtx->exit_level == EXIT_BREAK)
 			{
@@ -2549,7 +2573,7 @@ static int run_for (hawk_rtx_t* rtx, hawk_nde_for_t* nde)
 			hawk_rtx_refupval (rtx, test);
 			if (hawk_rtx_valtobool(rtx, test))
 			{
-				if (run_statement(rtx,nde->body) <= -1)
+				if (run_statement_withdc(rtx, nde->body) <= -1)
 				{
 					hawk_rtx_refdownval (rtx, test);
 					return -1;
@@ -2565,7 +2589,7 @@ static int run_for (hawk_rtx_t* rtx, hawk_nde_for_t* nde)
 		}
 		else
 		{
-			if (run_statement(rtx,nde->body) <= -1) return -1;
+			if (run_statement_withdc(rtx, nde->body) <= -1) return -1;
 		}
 
 		if (rtx->exit_level == EXIT_BREAK)
@@ -2676,7 +2700,7 @@ static int run_forin (hawk_rtx_t* rtx, hawk_nde_forin_t* nde)
 			/* iterate over the keys in the snapshot */
 			for (i = old_forin_size;  i < rtx->forin.size; i++)
 			{
-				if (HAWK_UNLIKELY(!do_assignment(rtx, test->left, rtx->forin.ptr[i])) || HAWK_UNLIKELY(run_statement(rtx, nde->body) <= -1))
+				if (HAWK_UNLIKELY(!do_assignment(rtx, test->left, rtx->forin.ptr[i])) || HAWK_UNLIKELY(run_statement_withdc(rtx, nde->body) <= -1))
 				{
 					ret = -1;
 					goto done2;
@@ -2758,7 +2782,7 @@ static int run_forin (hawk_rtx_t* rtx, hawk_nde_forin_t* nde)
 			/* iterate over the keys in the snapshot */
 			for (i = old_forin_size;  i < rtx->forin.size; i++)
 			{
-				if (HAWK_UNLIKELY(!do_assignment(rtx, test->left, rtx->forin.ptr[i])) || HAWK_UNLIKELY(run_statement(rtx, nde->body) <= -1))
+				if (HAWK_UNLIKELY(!do_assignment(rtx, test->left, rtx->forin.ptr[i])) || HAWK_UNLIKELY(run_statement_withdc(rtx, nde->body) <= -1))
 				{
 					ret = -1;
 					goto done3;
